@@ -7,6 +7,7 @@
   code produced, never assumed of it.
 -/
 import DdnnfVerif.Proofs.Keystone
+import DdnnfVerif.Proofs.LoadSem
 namespace Ddnnf.C01
 
 /-- The reported count (`Ddnnf::rc()` = count of the last node) is the number of assignments to
@@ -37,5 +38,45 @@ theorem checked_load_count (nodes : List NType) (n : Nat) (den : Assignment → 
     count nodes (rootIx nodes) = ((allBits n).filter (fun b => den (assignOf b))).length := by
   rw [count_is_model_count nodes n h]
   simp [specCount, hden]
+
+
+/-! ### the d4 loader (Model/D4Load.lean, tied to the code by exact comparison of the loaded arrays) -/
+
+/-- **The d4 loader preserves the denotation of the file.**  `sem σ g r 0` is the value of the file's
+first node in the graph phase 1 builds from the text (t = true, f = false, a = conjunction of its
+edges, o = disjunction over its edges of (edge literals ∧ target); removed nodes do not exist yet in
+that graph).  Free-feature handling, True/False elimination (incl. chains of and-nodes above a false
+node), re-adding features that vanished with a false node, smoothing and the post-order flattening
+leave it unchanged — for every d4 text whose graph is acyclic (`r` ranks it), that mentions no
+literal 0 and on which the loader model does not raise its error flag. -/
+theorem d4_loader_preserves_denotation (lines : List D4.Line) (total : Nat)
+    (hnode : ∃ k, D4.Line.node k ∈ lines)
+    (hnz : D4.LitNZ (lines.foldl D4.stepLine { total := total }).g)
+    (r : Nat → Nat) (hacyc : D4.Acyclic (lines.foldl D4.stepLine { total := total }).g r)
+    (hok : (D4.load lines total).2.2 = false) (σ : Assignment) :
+    eval σ (D4.load lines total).2.1 (rootIx (D4.load lines total).2.1) =
+      D4.sem σ (lines.foldl D4.stepLine { total := total }).g r 0 :=
+  D4.load_preserves_denotation lines total hnode hnz r hacyc hok σ
+
+/-- … and the loaded array has its children before their parents -/
+theorem d4_loader_yields_topological_array (lines : List D4.Line) (total : Nat)
+    (hnode : ∃ k, D4.Line.node k ∈ lines) (r : Nat → Nat)
+    (hacyc : D4.Acyclic (lines.foldl D4.stepLine { total := total }).g r) :
+    Topo (D4.load lines total).2.1 :=
+  D4.load_topo_of_phase1 true id lines total hnode r hacyc
+
+/-- hence: if the loaded array passes the structural check `WF` (decided per input by the driver), the
+reported count is the number of assignments satisfying the file's denotation — for any number of
+features, no truth table of the file needed -/
+theorem d4_count_is_number_of_models_of_the_file (lines : List D4.Line) (total : Nat)
+    (hnode : ∃ k, D4.Line.node k ∈ lines)
+    (hnz : D4.LitNZ (lines.foldl D4.stepLine { total := total }).g)
+    (r : Nat → Nat) (hacyc : D4.Acyclic (lines.foldl D4.stepLine { total := total }).g r)
+    (hok : (D4.load lines total).2.2 = false)
+    (hwf : WF (D4.load lines total).2.1 (D4.load lines total).1) :
+    count (D4.load lines total).2.1 (rootIx (D4.load lines total).2.1) =
+      ((allBits (D4.load lines total).1).filter fun b =>
+        D4.sem (assignOf b) (lines.foldl D4.stepLine { total := total }).g r 0).length :=
+  checked_load_count _ _ _ hwf (fun σ => d4_loader_preserves_denotation lines total hnode hnz r hacyc hok σ)
 
 end Ddnnf.C01
